@@ -354,7 +354,7 @@ def gen_plan(seed: int, tier: str) -> dict:
         "trim": rng.choice([None, None, None, "-", "~"]),
         "suppress_blank_control_flow_blocks": rng.choice([None, None, False]),
         "shorthand_indexes": rng.choice([None, None, True]),
-        "loop_iteration_limit": rng.choice([None, None, None, None, 5, 40]),
+        "loop_iteration_limit": rng.choice([None, None, None, 5, 8, 40]),
         "output_stream_limit": rng.choice([None, None, None, None, 60, 400]),
         "local_namespace_limit": rng.choice([None, None, None, None, 200]),
         "context_depth_limit": rng.choice([None, None, None, None, None, None, 4]),
